@@ -1,10 +1,13 @@
 ----------------------------- MODULE Trace_Tail -----------------------------
 (***************************************************************************)
-(* Trace validation: the events recorded from ONE run of the real tail     *)
-(* (real reader router behind an httptest.Server, real websocket client,   *)
-(* database = chsql behind a lock; harness/cmd/x01) must be a behaviour of *)
+(* Trace validation: the events recorded from runs of the real tail (real  *)
+(* reader router behind an httptest.Server, real websocket client,         *)
+(* database = chsql behind a lock; harness/cmd/x01) must be behaviours of  *)
 (* Tail.tla.  One trace line = one observable step with its arguments      *)
 (* bound:                                                                  *)
+(*   Reset     a recorded run begins (n: its number; fb, nf: where its     *)
+(*             Frame events lie among all Frame events; flood: the         *)
+(*             recorder stopped listing messages after the third bad one)  *)
 (*   Start     the request is sent (lo..hi brackets time.Now() - 5 min)    *)
 (*   Refused   the request was answered without upgrade (status)           *)
 (*   Store     a push was acknowledged: the line is visible to queries     *)
@@ -15,34 +18,52 @@
 (*   ClientClose / ClientDrop / ConnEOF / HandlerDone                      *)
 (*   NoEOF     the driver waited for the server to end the connection      *)
 (*   Census    goroutines of the request still alive at the deadline       *)
+(*   End       the run is over: prints <<"SCN", n, used>>                  *)
 (* Channel operations, ticker firings, the Done check, context             *)
-(* cancellation and writes into the connection are silent steps.           *)
+(* cancellation and writes into the connection are silent steps.  The      *)
+(* connection is FIFO and the client reads everything until it leaves, so  *)
+(* a silent write is only explored if the wire then still is a prefix of   *)
+(* the frames the client is going to read (WireOK).                        *)
 (* Timestamps are order-preserving ranks of the concrete nanosecond values *)
 (* (t and t+1 ns keep adjacent ranks), so `from = newest + 1` is checked   *)
 (* exactly.                                                                *)
+(* Run with Dev = AllDev, Mixed = TRUE: every End line lists, for every    *)
+(* way the run can be read as a behaviour, the as-coded branches it needs; *)
+(* {} among them <=> the run is a behaviour of the specification.          *)
 (***************************************************************************)
 EXTENDS Tail, Json, TLCExt
 
 TraceLog == ndJsonDeserialize("trace.ndjson")
+AllFrames == SelectSeq(TraceLog, LAMBDA e : e.ev = "Frame")
 
 VARIABLES l,          \* index of the next trace line
-          seenEmpty,  \* empty messages recorded so far (the recorder stops listing them after three)
+          nread,      \* Frame events of this run consumed so far
+          run,        \* the Reset line of this run (n, fb, nf, flood)
           lastDb      \* database clock at the previous Query
 
-tvars == <<vars, l, seenEmpty, lastDb>>
+tvars == <<vars, l, nread, run, lastDb>>
 
 Ev == TraceLog[l]
 More == l <= Len(TraceLog)
 Is(e) == More /\ Ev.ev = e
 Consume == l' = l + 1
 SeqSet(s) == {s[i] : i \in 1..Len(s)}
-Keep == UNCHANGED <<seenEmpty, lastDb>>
-Silent == UNCHANGED <<l, seenEmpty, lastDb>>
+Keep == UNCHANGED <<nread, run, lastDb>>
+Silent == UNCHANGED <<l, nread, run, lastDb>>
 
-TraceInit == Init /\ l = 1 /\ seenEmpty = 0 /\ lastDb = 0
+NoRun == [n |-> 0, fb |-> 0, nf |-> 0, flood |-> FALSE]
+TraceInit == Init /\ l = 1 /\ nread = 0 /\ run = NoRun /\ lastDb = 0
 
-\* several recorded runs in one file: "Reset" starts the next one
-TraceReset == Is("Reset") /\ Restart /\ Consume /\ seenEmpty' = 0 /\ lastDb' = 0
+SameFrame(f, e) == f = [k |-> e.kind, ids |-> SeqSet(e.ids)]
+\* everything in the wire is what the client reads next
+WireOK(w, nr, cl) ==
+    \/ cl = "dropped"
+    \/ \A i \in 1..Len(w) :
+          IF nr + i <= run.nf THEN SameFrame(w[i], AllFrames[run.fb + nr + i]) ELSE run.flood
+
+TraceReset ==
+    /\ Is("Reset") /\ Restart /\ Consume
+    /\ nread' = 0 /\ lastDb' = 0 /\ run' = [n |-> Ev.n, fb |-> Ev.fb, nf |-> Ev.nf, flood |-> Ev.flood]
 
 TraceStart ==
     /\ Is("Start")
@@ -52,8 +73,7 @@ TraceStart ==
 TraceRefused ==
     /\ Is("Refused")
     /\ client = "refused"
-    /\ \/ Ev.code >= 400
-       \/ req \in {"empty", "noparse"} /\ "silent_refusal" \in Dev     \* as coded: an empty 200 response
+    /\ (Ev.code >= 400) = (status >= 400)
     /\ Consume /\ Keep /\ UNCHANGED vars
 
 TraceStore == Is("Store") /\ StoreLine(Ev.id, Ev.ts) /\ Consume /\ Keep
@@ -77,23 +97,23 @@ TraceQuery ==
            [] Ev.fault = "scan"  -> SQuery(Ev.to, "scan", P)
            [] Ev.fault = "ctx"   -> SQuery(Ev.to, "ctx", {})
     /\ lastDb' = Ev.dbnow
-    /\ Consume /\ UNCHANGED seenEmpty
+    /\ Consume /\ UNCHANGED <<nread, run>>
 
 TraceFrame ==
     /\ Is("Frame")
     /\ wire # <<>>
     /\ Len(Ev.ids) = Cardinality(SeqSet(Ev.ids))
-    /\ Head(wire) = [k |-> Ev.kind, ids |-> SeqSet(Ev.ids)]
+    /\ SameFrame(Head(wire), Ev)
     /\ ClientRead
-    /\ seenEmpty' = IF Ev.kind = "empty" THEN seenEmpty + 1 ELSE seenEmpty
-    /\ Consume /\ UNCHANGED lastDb
+    /\ nread' = nread + 1
+    /\ Consume /\ UNCHANGED <<run, lastDb>>
 
-\* the recorder lists three empty messages and counts the rest (Flood)
-SkipEmpty ==
-    /\ seenEmpty >= 3 /\ wire # <<>> /\ Head(wire).k = "empty"
-    /\ ClientRead /\ Silent
+\* the recorder lists the messages up to the third bad one and counts the rest (Flood)
+SkipRead ==
+    /\ run.flood /\ nread >= run.nf /\ wire # <<>>
+    /\ ClientRead /\ nread' = nread + 1 /\ UNCHANGED <<l, run, lastDb>>
 
-TraceFlood == Is("Flood") /\ "spin_on_closed" \in Dev /\ Consume /\ Keep /\ UNCHANGED vars
+TraceFlood == Is("Flood") /\ nread >= run.nf /\ Consume /\ Keep /\ UNCHANGED vars
 
 TraceClientClose == Is("ClientClose") /\ ClientClose /\ Consume /\ Keep
 TraceClientDrop  == Is("ClientDrop") /\ ClientDrop /\ Consume /\ Keep
@@ -105,12 +125,10 @@ TraceConnEOF ==
 
 TraceHandlerDone == Is("HandlerDone") /\ hpc = "term" /\ Consume /\ Keep /\ UNCHANGED vars
 
-\* the driver gave the server 1.5 s and more to end the connection by itself and it did not
+\* the driver gave the server 1.5 s to end the connection by itself and it neither did nor sent garbage
 TraceNoEOF ==
     /\ Is("NoEOF")
-    /\ hpc = "select" /\ spc # "exit"
-    /\ ~cancelled
-    /\ ~(chClosed /\ "spin_on_closed" \notin Dev)
+    /\ hpc = "select" /\ spc # "exit" /\ ~cancelled /\ ~chClosed
     /\ Consume /\ Keep /\ UNCHANGED vars
 
 TraceNote == More /\ Ev.ev \in {"AwaitTimeout"} /\ Consume /\ Keep /\ UNCHANGED vars
@@ -122,23 +140,32 @@ TraceCensus ==
     /\ AllDone
     /\ Consume /\ Keep /\ UNCHANGED vars
 
+TraceEnd ==
+    /\ Is("End")
+    /\ PrintT(<<"SCN", run.n, used>>)
+    /\ Consume /\ Keep /\ UNCHANGED vars
+
 \* ---- silent steps
 NeedVersion == Is("Version") /\ spc = "version"
 SilentStep ==
-    /\ \/ Tick \/ STick \/ SVersion("cached") \/ SVersion("ctx") \/ SDone \/ SExit
+    /\ run.n # 0
+    /\ \/ (~svcTick \/ ~pingTick) /\ Tick
+       \/ STick \/ SVersion("cached") \/ SVersion("ctx") \/ SDone \/ SExit
        \/ (NeedVersion /\ VExpire)
        \/ SQuery(now, "ctx", {})
-       \/ HCtx \/ HPing \/ HRecv \/ HRecvClosed
+       \/ HCtx
+       \/ (HPing \/ HRecv \/ HRecvClosed) /\ WireOK(wire', nread, client)
        \/ RClose \/ RDrop \/ DRecv \/ DEnd
     /\ Silent
 
 TraceNext ==
-    \/ TraceReset \/ TraceStart \/ TraceRefused \/ TraceStore \/ TraceVersion \/ TraceQuery \/ TraceFrame \/ SkipEmpty \/ TraceFlood
+    \/ TraceReset \/ TraceStart \/ TraceRefused \/ TraceStore \/ TraceVersion \/ TraceQuery \/ TraceFrame \/ SkipRead \/ TraceFlood
     \/ TraceClientClose \/ TraceClientDrop \/ TraceConnEOF \/ TraceHandlerDone \/ TraceNoEOF \/ TraceNote \/ TraceCensus
-    \/ SilentStep
+    \/ TraceEnd \/ SilentStep
 
 TraceSpec == TraceInit /\ [][TraceNext]_tvars
 
+\* used with vlib-style early exit (not in explanation mode, where the whole space is explored)
 Accept ==
     (l = Len(TraceLog) + 1) => (PrintT("TRACE-ACCEPTED") /\ TLCSet("exit", TRUE))
 HW == TLCGetOrDefault(1, 0)
